@@ -1,7 +1,8 @@
 (* C09 — a blocked log call resumes once the backend made room; no stall on an empty queue.
    (bounded queue part; the unbounded queue part is in Properties_C02/C09 when present) *)
-From Coq Require Import List NArith Bool.
+From Coq Require Import List NArith Bool String.
 From Quill Require Import Queue.BQDefs Queue.BQProofs Queue.BQSeqProofs TieC09.
+From Quill Require Import BT.BTModel Backend.BEDefs Backend.BEExec Backend.BEInv Backend.BEPub.
 Import ListNotations.
 Local Open Scope N_scope.
 
@@ -37,3 +38,72 @@ Theorem C09_stall_refuted_without_drain_publish :
   dirty s = false /\ rpos s = wpos s /\ 996 <= 1024 /\ snd (prepare_write ideal 1024 s 996) = None.
 Proof. exact bq_stall_refuted. Qed.
 Print Assumptions C09_stall_refuted_without_drain_publish.
+
+(* ---------------------------------------------------------------------------------------------------------
+   The same clause at the level of the backend (M-BE, bounded queues). *)
+
+(* T-src: the backend's read pass ends with commit_read whenever it consumed anything (the loop read_queue models) *)
+Theorem C09_tie_read_pass_commits : QuillGen.SrcFacts.sk_be_read_and_decode_frontend_queue = [
+    "DECL size_t const queue_capacity = frontend_queue.capacity();";
+    "DECL size_t total_bytes_read{0};";
+    "DO";
+    "  DECL std::byte* read_pos;";
+    "  IF std::is_same_v<TFrontendQueue, UnboundedSPSCQueue>";
+    "    EXPR read_pos = _read_unbounded_frontend_queue(frontend_queue, thread_context)";
+    "  ELSE";
+    "    EXPR read_pos = frontend_queue.prepare_read()";
+    "  IF !read_pos";
+    "    BREAK";
+    "  DECL std::byte const* const read_begin = read_pos;";
+    "  IF !_populate_transit_event_from_frontend_queue(read_pos, thread_context, ts_now)";
+    "    BREAK";
+    "  EXPR assert";
+    "  DECL auto const bytes_read = static_cast<size_t>(read_pos - read_begin);";
+    "  EXPR frontend_queue.finish_read(bytes_read)";
+    "  EXPR total_bytes_read += bytes_read";
+    "DOWHILE (total_bytes_read < queue_capacity) && (thread_context->_transit_event_buffer->size() < _options.transit_events_hard_limit)";
+    "IF total_bytes_read != 0";
+    "  EXPR frontend_queue.commit_read()";
+    "RET return thread_context->_transit_event_buffer->size()"]%string.
+Proof. exact src_be_read_pass_commits. Qed.
+Print Assumptions C09_tie_read_pass_commits.
+
+(* Every configuration whose commit_read publishes on drain (tied above), every history of frontend and backend
+   micro-steps (any interleaving of any number of threads, polls cut anywhere, limits, grace period, exits, context
+   clean-ups), every thread: if the thread's queue holds nothing - the backend has consumed whatever was ahead - then
+   its pending statement (parked in the retry loop of a blocking queue, or offered to a dropping one) is granted at
+   its next try whenever it fits the capacity: the record is enqueued and the call returns. The producer is never
+   left waiting on an empty queue; no premise about the backend being idle or about commit_read having run is
+   needed: that discipline is an invariant of the backend model (Backend/BEPub.v, PubI). *)
+Theorem C09_backend_empty_queue_grants : forall (K : cfg) (s0 : st) ops t e0,
+  on_drain (c_pub K) = true ->
+  (forall u, fresh_thr (th s0 u) /\ issued s0 u = [] /\ delivered s0 u = []) -> pos_ops ops ->
+  let s := run K s0 ops in
+  pend (th s t) = Some e0 -> memb t (registered s) = true -> qev (th s t) = [] -> esz e0 <= c_cap K ->
+  let s' := fstep K s (FTry t) in
+  pend (th s' t) = None /\ issued s' t = issued s t ++ [eid e0] /\ map eid (qev (th s' t)) = [eid e0].
+Proof. intros K s0 ops t e0 Hd. exact (be_empty_queue_grants K Hd s0 ops t e0). Qed.
+Print Assumptions C09_backend_empty_queue_grants.
+
+(* non-vacuity: capacity 256, a 200-byte statement is granted, a 100-byte one parks; three polls later the backend
+   has consumed everything: the producer is still parked (pending statement 2, queue empty) and its retry is
+   granted. With the pinned commit_read (no publish-on-drain; 50 bytes consumed, below the batch threshold) a
+   250-byte statement parks on an empty queue and its retry is refused for ever: D3 at backend level. *)
+Definition K_c09 (od : bool) : cfg :=
+  {| c_cap := 256; c_batch := 100; c_pub := {| on_batch := true; on_drain := od |}; c_dropping := false;
+     c_tinit := 4; c_soft := 4; c_hard := 8; c_grace := 0; c_bits := 32; c_refresh2 := true; c_catch_all := true;
+     c_report_first := true; c_bt := {| BT.BTModel.reset_index_in_process := true; BT.BTModel.cap0_guard := true |}; c_bt_catch := true; c_flush_iv := 0; c_follow := true |}.
+Definition c09_init : st := st0 100000 1 1 (fun _ => mk_lgr 0 [0%nat]) (fun _ => mk_snk 0 []).
+Definition c09_parked : st :=
+  fst (exec_all (K_c09 true) c09_init
+     [CLog 0 (mk_ev 1 0 4 200 0) false; CLog 0 (mk_ev 2 0 4 100 0) false; CPoll []; CPoll []; CPoll []]).
+Definition c09_stalled : st :=
+  fst (exec_all (K_c09 false) c09_init
+     [CLog 0 (mk_ev 1 0 4 50 0) false; CPoll []; CPoll []; CLog 0 (mk_ev 2 0 4 250 0) false; CPoll []; CPoll []; CPoll []]).
+Example C09_backend_example :
+  (option_map eid (pend (th c09_parked 0%nat)) = Some 2 /\ qev (th c09_parked 0%nat) = [] /\ memb 0%nat (registered c09_parked) = true /\
+   delivered c09_parked 0%nat = [1]) /\
+  pend (th (fstep (K_c09 true) c09_parked (FTry 0%nat)) 0%nat) = None /\
+  (option_map eid (pend (th c09_stalled 0%nat)) = Some 2 /\ qev (th c09_stalled 0%nat) = [] /\
+   option_map eid (pend (th (fstep (K_c09 false) c09_stalled (FTry 0%nat)) 0%nat)) = Some 2).
+Proof. vm_compute. repeat split; reflexivity. Qed.
